@@ -189,9 +189,13 @@ def exec_exact(case):
     runner = Runner(u, u.copy(), logl, blobs, labels, beta, ms, ll, lambda v: v.copy(), None, 1, 1,
                     np.array(periodic, dtype=int) if periodic else None, np.array(reflective, dtype=int) if reflective else None, False)
     sig = np.array(case["sigma"]) * (1.0 if kernel == "tpcn" else float(case["sigma_scale_rwm"]) / 0.99)
-    if not hasattr(runner, "sigmas") or np.shape(runner.sigmas) != (K,):
+    occupied = np.unique(labels)
+    if hasattr(runner, "sigmas") and np.shape(runner.sigmas) == (K,):
+        runner.sigmas = sig.copy()
+    elif hasattr(runner, "sigmas") and np.shape(runner.sigmas) == (len(occupied),):
+        runner.sigmas = sig[occupied].copy()  # an implementation that keeps step sizes for the occupied clusters only, in label order
+    else:
         raise HarnessError("runner.sigmas missing or of unexpected shape: observation point missing")
-    runner.sigmas = sig.copy()
     Ls = [np.linalg.cholesky(ms.covariances[k]) for k in range(K)]
     Sinvs = [np.linalg.inv(ms.covariances[k]) for k in range(K)]
     n_out, n_in = 0, 0
